@@ -1630,6 +1630,10 @@ func (w *World) RunJob(name string, minAge time.Duration, maxDelete int) (int, e
 	lo := w.now()
 	n, err := services.VerifPruneRunOnce(w.Ctx, w.E.Client, name, actions.PruneCommonParams{MinAge: minAge, MaxDelete: maxDelete})
 	hi := w.now()
+	if minAge == 0 && name != ExpireJob {
+		// an age threshold left at zero means the services' documented default: one hour
+		minAge = time.Hour
+	}
 	w.pruneLog = append(w.pruneLog, pruneRun{name, minAge, Iv{lo, hi}})
 	res := fmt.Sprintf("n=%d", n)
 	if err != nil {
